@@ -238,7 +238,7 @@ func q(name string) ident {
 func bare(name string) ident { return ident{name, name} }
 
 var (
-	colPool   = []ident{bare("a"), bare("b"), bare("c"), bare("id"), bare("amt"), bare("qty"), bare("col_1"), bare("Price"), q("Col X"), q(`q"t`), bare("é1")}
+	colPool   = []ident{bare("a"), bare("b"), bare("c"), bare("id"), bare("amt"), bare("qty"), bare("col_1"), bare("Price"), q("Col X"), q(`q"t`), bare("é1"), q("né-le"), q("é b")}
 	colKwPool = []ident{q("select"), q("from"), q("order"), q("group by"), q("left join")}
 	// words the tokenizer or the parser's token conversion type as keywords (beyond the reserved list)
 	colKwPool2 = []ident{q("all"), q("default"), q("delete"), q("distinct"), q("groups"), q("key"), q("last"), q("list"), q("primary"), q("update"), q("unique"), q("into"),
